@@ -163,10 +163,10 @@ def valid(prop, case):
     return True
 
 
-def minimise(prop, clause, case, evaluate, budget=400):
+def minimise(prop, clause, case, eng, budget=400):
     """
-    evaluate(case) -> Result. Returns (smallest failing case, number of
-    evaluations spent). The case given must fail with `clause`.
+    eng: engine module (cases / hcases). Returns (smallest failing case, number
+    of evaluations spent). The case given must fail with `clause`.
     """
     spent = 0
 
@@ -174,28 +174,25 @@ def minimise(prop, clause, case, evaluate, budget=400):
         nonlocal spent
         spent += 1
         try:
-            res = evaluate(prop, cand)
+            res = eng.evaluate_case(prop, cand)
         except Exception:                               # pylint: disable=W0703
             return None
         for v in res.violations:
             if v.clause == clause:
                 return res
         return None
-    # pin the schedule: replay the recorded choices from now on
-    if case['choices'] is None:
-        res = fails(case)
-        if res is not None and res.run is not None:
-            pinned = dict(case)
-            pinned['choices'] = list(res.run.choices)
-            if fails(pinned) is not None:
-                case = pinned
+    res = fails(case)
+    if res is not None:
+        pinned = eng.pin(case, res)
+        if pinned is not None and fails(pinned) is not None:
+            case = pinned
     progress = True
     while progress and spent < budget:
         progress = False
-        for cand in candidates(case):
+        for cand in eng.candidates(case):
             if spent >= budget:
                 break
-            if not valid(prop, cand):
+            if not eng.valid(prop, cand):
                 continue
             if fails(cand) is not None:
                 case = cand
